@@ -37,7 +37,11 @@ Inductive item := Tick | Data (vals : list Z) | Cancel.
 (* schema of the client's input stream relative to the declared input {x:int64} *)
 Inductive in_schema := SExact | SInt32 | SNullable | SBadName | SExtraCol | SEmpty.
 
-Record input := {
+(* the input schema the call's own init handler declared: a registered exchange always
+   {x:int64}; a DYNAMIC method (DynamicStreamWithHeader) declares it per call on its StreamResult *)
+Inductive decl := DeclX | DeclY | DeclXZ.      (* {x:int64} | {y:int64} | {x:int64,z:int64} *)
+
+Record call_input := Build_input {
   i_mode : mode;
   i_declares_header : bool;          (* method registered WithHeader *)
   i_x : Z;
@@ -47,14 +51,17 @@ Record input := {
   i_canceller : bool;                (* state implements StreamCanceller *)
   i_turns : list turn;
   i_schema : in_schema;
-  i_items : list item }.
+  i_items : list item;
+  i_dynamic : bool;                  (* method registered with DynamicStreamWithHeader: no registered
+                                        input/output schema, mode decided by the state's interface *)
+  i_declared : decl }.
 
 (* calls observed by the scripted user code, in order *)
 Inductive call :=
 | CInit (x : Z) | CProduce (k : nat) | CExchange (k : nat) (insum : Z) | CCancel (k : nat)
 | CUnary (x : Z) | COther.
 
-Record obs := {
+Record call_obs := Build_obs {
   o_broken : bool;                   (* a panic escaped Serve, or a response stream does not parse *)
   o_streams : list stream;
   o_trace : list call }.
@@ -77,16 +84,26 @@ Definition e_no_data : exc := (c06_no_data_type, c06_no_data_msg).
 Definition e_emit_twice : exc := (c06_emit_twice_type, c06_emit_twice_msg).
 Definition e_finish_exchange : exc := (c06_finish_exchange_type, c06_finish_exchange_msg).
 
-(* castRecordBatch of a non-cancel input against {x:int64}; only exchange casts *)
-Definition cast_error (m : mode) (s : in_schema) : option exc :=
+(* castRecordBatch of a non-cancel input against the schema THIS call declared; only exchange casts *)
+Definition e_cast_badname : exc := (c06_cast_badname_type, c06_cast_badname_msg).
+Definition e_cast_extracol : exc := (c06_cast_extracol_type, c06_cast_extracol_msg).
+Definition e_cast_empty : exc := (c06_cast_empty_type, c06_cast_empty_msg).
+Definition cast_error (m : mode) (d : decl) (s : in_schema) : option exc :=
   match m with
   | Producer => None
   | Exchange =>
-      match s with
-      | SExact | SInt32 | SNullable => None
-      | SBadName => Some (c06_cast_badname_type, c06_cast_badname_msg)
-      | SExtraCol => Some (c06_cast_extracol_type, c06_cast_extracol_msg)
-      | SEmpty => Some (c06_cast_empty_type, c06_cast_empty_msg)
+      match d, s with
+      | DeclX, (SExact | SInt32 | SNullable) => None
+      | DeclX, SBadName => Some e_cast_badname
+      | DeclX, SExtraCol => Some e_cast_extracol
+      | DeclX, SEmpty => Some e_cast_empty
+      | DeclY, SBadName => None
+      | DeclY, (SExact | SInt32 | SNullable) => Some (c06_cast_y_gotx_type, c06_cast_y_gotx_msg)
+      | DeclY, SExtraCol => Some e_cast_extracol
+      | DeclY, SEmpty => Some e_cast_empty
+      | DeclXZ, SExtraCol => None
+      | DeclXZ, (SExact | SInt32 | SNullable | SBadName) => Some (c06_cast_xz_got1_type, c06_cast_xz_got1_msg)
+      | DeclXZ, SEmpty => Some (c06_cast_xz_got0_type, c06_cast_xz_got0_msg)
       end
   end.
 
@@ -157,14 +174,17 @@ Definition sentinel_stream : stream := {| st_schema := schema_result_int64; st_f
 Definition init_frames (rid lvl : bytes) (logs : list logmsg) : list frame :=
   map (C04.log_frame rid) (filter (C04.admitted lvl) logs).
 
-Definition header_of (i : input) : option Z := if i_declares_header i then i_header i else None.
+Definition header_of (i : call_input) : option Z := if i_declares_header i then i_header i else None.
 
-Definition run_loop (i : input) : list frame * list call :=
-  loop (i_mode i) (i_reqid i) (cast_error (i_mode i) (i_schema i)) (i_canceller i) (i_turns i) 0 (i_items i).
+Definition run_loop (i : call_input) : list frame * list call :=
+  loop (i_mode i) (i_reqid i) (cast_error (i_mode i) (i_declared i) (i_schema i)) (i_canceller i) (i_turns i) 0 (i_items i).
 
-Definition call_streams (i : input) : list stream :=
+(* an init failure is written with the REGISTERED output schema: none for a dynamic method *)
+Definition err_schema (i : call_input) : bytes := if i_dynamic i then [] else out_schema.
+
+Definition call_streams (i : call_input) : list stream :=
   match i_init_fail i with
-  | Some f => [ {| st_schema := out_schema; st_frames := [FExc (C04.exc_type f) (C04.exc_msg f) (i_reqid i) []] |} ]
+  | Some f => [ {| st_schema := err_schema i; st_frames := [FExc (C04.exc_type f) (C04.exc_msg f) (i_reqid i) []] |} ]
   | None =>
       match header_of i with
       | Some h =>
@@ -177,10 +197,10 @@ Definition call_streams (i : input) : list stream :=
       end
   end.
 
-Definition call_trace (i : input) : list call :=
+Definition call_trace (i : call_input) : list call :=
   CInit (i_x i) :: match i_init_fail i with Some _ => [] | None => snd (run_loop i) end.
 
-Definition model (i : input) : obs :=
+Definition model_call (i : call_input) : call_obs :=
   {| o_broken := false;
      o_streams := call_streams i ++ [sentinel_stream];
      o_trace := call_trace i ++ [CUnary sentinel_x] |}.
@@ -196,7 +216,7 @@ Definition call_eqb (a b : call) : bool :=
   | _, _ => false
   end.
 
-Definition obs_eqb (a b : obs) : bool :=
+Definition obs_call_eqb (a b : call_obs) : bool :=
   Bool.eqb (o_broken a) (o_broken b)
   && list_eqb stream_eqb (o_streams a) (o_streams b)
   && list_eqb call_eqb (o_trace a) (o_trace b).
@@ -235,7 +255,7 @@ Definition calls_eqb := list_eqb call_eqb.
 (* no exception batch anywhere but in last position *)
 Definition exc_only_last (fs : list frame) : bool := Nat.eqb (count is_exc (removelast fs)) 0.
 
-Definition body_ok (i : input) (body : list frame) (calls : list call) : bool :=
+Definition body_ok (i : call_input) (body : list frame) (calls : list call) : bool :=
   let m := i_mode i in
   let rid := i_reqid i in
   let lv := live (i_items i) in
@@ -248,7 +268,7 @@ Definition body_ok (i : input) (body : list frame) (calls : list call) : bool :=
   Nat.leb n (length (i_items i))
   && Nat.leb (count is_exc body) 1 && exc_only_last body
   && Nat.leb (count is_data body) n
-  && match cast_error m (i_schema i), lv with
+  && match cast_error m (i_declared i) (i_schema i), lv with
      | Some e, _ :: _ =>
          (* uncastable input: exactly the cast exception, no turn, no hook *)
          frames_eqb body [exc_frame rid e] && calls_eqb calls []
@@ -276,7 +296,7 @@ Definition body_ok (i : input) (body : list frame) (calls : list call) : bool :=
 Definition strip_prefix (p l : list frame) : option (list frame) :=
   if frames_eqb (firstn (length p) l) p then Some (skipn (length p) l) else None.
 
-Definition spec_ok (i : input) (o : obs) : bool :=
+Definition spec_call_ok (i : call_input) (o : call_obs) : bool :=
   negb (o_broken o)
   && match o_trace o with
      | CInit x :: rest =>
@@ -286,7 +306,7 @@ Definition spec_ok (i : input) (o : obs) : bool :=
             match i_init_fail i, header_of i, o_streams o with
             | Some f, _, [s; z] =>
                 (* init failed: one exception in the output stream, no turn at all *)
-                stream_eqb z sentinel_stream && beqb (st_schema s) out_schema
+                stream_eqb z sentinel_stream && beqb (st_schema s) (err_schema i)
                 && match st_frames s with [FExc t _ r _] => beqb t (C04.exc_type f) && beqb r (i_reqid i) | _ => false end
                 && calls_eqb calls []
             | None, Some h, [hs; s; z] =>
@@ -307,3 +327,20 @@ Definition spec_ok (i : input) (o : obs) : bool :=
             end
      | _ => false
      end.
+
+(* ==== a history: several stream calls on ONE server / one pipe ============== *)
+(* Each call is followed by its sentinel; the harness cuts the response bytes and
+   the call trace after every sentinel.  Nothing a call did (its mode, the input
+   schema its init handler declared, its script) may influence a later call:
+   the model of a history is the per-call model mapped over it, and the contract
+   is the per-call contract on every call's own observables. *)
+Definition input := list call_input.
+Definition obs := list call_obs.
+Definition model (h : input) : obs := map model_call h.
+Definition obs_eqb (a b : obs) : bool := list_eqb obs_call_eqb a b.
+Fixpoint spec_ok (h : input) (os : obs) : bool :=
+  match h, os with
+  | [], [] => true
+  | i :: h', o :: os' => spec_call_ok i o && spec_ok h' os'
+  | _, _ => false
+  end.
